@@ -242,7 +242,10 @@ fn hss_sign_core<H: HashChain>(
         hash_iterations + hss_signature.signature.lmots_signature.hash_iterations as u32
     };
 
-    Signature::from_bytes_verbose(&hss_signature.to_binary_representation(), hash_iterations)
+    Signature::from_bytes_verbose(
+        hss_signature.to_binary_representation().as_slice(),
+        hash_iterations,
+    )
 }
 
 /**
